@@ -319,10 +319,7 @@ func (w *mxworld) mcheck(fs *finderState, o op, ob mobs) []finding {
 		}
 		add(sig+":after-"+opClass, fmt.Sprintf("upstream_connection_active host=%d cluster=%d but %d connections of the pool are open", ga, gc, nopen))
 	}
-	wantReq := int64(0)
-	if w.maxReq != 0 {
-		wantReq = int64(nlive + w.ext)
-	}
+	wantReq := int64(nlive + w.ext) // the resource counts for every max_requests, 0 (unlimited) included
 	if ob.Req != wantReq && fs.first(fmt.Sprint("req", ob.Req-wantReq)) {
 		add("requests-counter-differs:after-"+opClass, fmt.Sprintf("Requests().Cur()=%d but %d streams are live (+%d held externally)", ob.Req, nlive, w.ext))
 	}
@@ -484,6 +481,9 @@ func runMx(maxReq uint64, depth int, full bool, pick func(step int, en []op) *op
 		h.ops = append(h.ops, *o)
 		h.obs = append(h.obs, ob)
 		h.findings = append(h.findings, w.mcheck(fs, *o, ob)...)
+	}
+	for _, f := range w.recheckDelivered() {
+		h.findings = append(h.findings, finding{strings.Replace(f.sig, "pingpong:", "multiplex:", 1), f.what})
 	}
 	h.timeouts = w.timeouts
 	return h
